@@ -15,8 +15,13 @@ inline void seq_warmup() {
 
 // A case that leaves the thread in coroutine mode (or with handles in the thread's ready queue) has been reported; the
 // thread-local state is put back so that the cases that follow in this process are judged on their own.
+template <typename QI>
+static inline void seq_clear_ready_queue(QI &qi) {
+    // reaches into the queue object by member name; if the library renames it there is nothing left to clear by hand
+    if constexpr (requires { qi._queue.clear(); }) qi._queue.clear();
+}
 static inline void seq_reset_thread_state() {
     cocls::coro_queue::instance = nullptr;
-    cocls::coro_queue::queue_impl::instance._queue.clear();
+    seq_clear_ready_queue(cocls::coro_queue::queue_impl::instance);
 }
 
